@@ -59,8 +59,9 @@ namespace cnl {
         to_chars_positive(char* const first, char* const last, integer auto const& value, int base)
         {
             auto const natural_last = to_chars_natural(first, last, value, base);
-            return std::to_chars_result{
-                    natural_last, natural_last ? std::errc{} : std::errc::value_too_large};
+            return natural_last
+                         ? std::to_chars_result{natural_last, std::errc{}}
+                         : std::to_chars_result{last, std::errc::value_too_large};
         }
 
         [[nodiscard]] constexpr auto
